@@ -189,7 +189,7 @@ def run(chk):
     chk.cov['rule'] = ('valid streams = contact header + random messages of every type (ext lists, data 0..64KiB, field values biased to width edges); '
                        'each stream is fed to the real Messenger.recv_raw under: every single cut, byte-by-byte, random cut sets, and all 2^(n-1) cut sets for short streams; '
                        'a case is one (stream, chunking); distinct = distinct (stream, cuts); plus codec equality impl/model/independent encoder per message; plus a malformed stream class compared on no-escape only')
-    n_streams = 25 if tier == 'quick' else 150
+    n_streams = 25 if tier == 'quick' else 60
     reqs, metas = [], []
 
     def flush(force=False):
